@@ -479,3 +479,70 @@ Section Main.
     - now apply pack_spec.
   Qed.
 End Main.
+
+(* ---------- the depth fuel of [wf_schema] is sufficient ---------- *)
+Definition fields_depth (fs : fields) : nat :=
+  fold_right (fun p m => Nat.max (ty_depth (snd p)) m) 0 fs.
+
+Lemma fields_depth_in fs p : In p fs -> ty_depth (snd p) <= fields_depth fs.
+Proof.
+  induction fs as [|q r IH]; intros H; [destruct H|].
+  cbn [fields_depth fold_right]. fold (fields_depth r). destruct H as [->|H]; [lia|].
+  specialize (IH H). lia.
+Qed.
+
+Lemma wf_fields_ext f g fs :
+  (forall p, In p fs -> f (snd p) = g (snd p)) -> wf_fields f fs = wf_fields g fs.
+Proof.
+  intros H. unfold wf_fields. f_equal.
+  induction fs as [|q r IH]; [reflexivity|]. cbn [forallb].
+  rewrite (H q (or_introl eq_refl)), IH; [reflexivity|]. intros p Hp. apply H. now right.
+Qed.
+
+Lemma wf_fuel_irrelevant : forall n m t,
+    ty_depth t < n -> ty_depth t < m -> wf n t = wf m t.
+Proof.
+  induction n as [|n IH]; intros m t Hn Hm; [lia|]. destruct m as [|m]; [lia|].
+  destruct t as [k|ms| | |fs|fs|k|]; try reflexivity; cbn [wf]; cbn [ty_depth] in Hn, Hm;
+    fold (fields_depth fs) in Hn, Hm.
+  - apply wf_fields_ext. intros p Hp. pose proof (fields_depth_in fs p Hp). apply IH; lia.
+  - f_equal. apply wf_fields_ext. intros p Hp. pose proof (fields_depth_in fs p Hp). apply IH; lia.
+Qed.
+
+Lemma wf_fields_mono (f g : ty -> bool) fs :
+  (forall t, f t = true -> g t = true) -> wf_fields f fs = true -> wf_fields g fs = true.
+Proof.
+  intros H. unfold wf_fields. rewrite !andb_true_iff. intros [H1 H2]. split; [exact H1|].
+  rewrite forallb_forall in *. intros p Hp. specialize (H2 p Hp).
+  apply andb_true_iff in H2. destruct H2 as [Ha Hb]. now rewrite Ha, (H _ Hb).
+Qed.
+
+Lemma wf_mono_S : forall n t, wf n t = true -> wf (S n) t = true.
+Proof.
+  induction n as [|n IH]; intros t H; [discriminate|].
+  destruct t as [k|ms| | |fs|fs|k|]; try reflexivity; cbn [wf] in *.
+  - now apply (wf_fields_mono (wf n) (wf (S n)) fs IH).
+  - apply andb_true_iff in H. destruct H as [H H0]. rewrite H0, andb_true_r.
+    now apply (wf_fields_mono (wf n) (wf (S n)) fs IH).
+Qed.
+
+Lemma wf_mono n m t : n <= m -> wf n t = true -> wf m t = true.
+Proof. induction 1 as [|m _ IH]; [auto|]. intros H. apply wf_mono_S. now apply IH. Qed.
+
+(* the fuel [wf_schema] uses is enough: it accepts exactly the schemas accepted at some depth *)
+Theorem wf_schema_iff t : wf_schema t = true <-> exists n, wf n t = true.
+Proof.
+  unfold wf_schema, fuel_of. split; [eauto|]. intros [n H].
+  apply (wf_mono n (Nat.max n (S (ty_depth t)))) in H; [|lia].
+  rewrite <- H. apply wf_fuel_irrelevant; lia.
+Qed.
+
+(* ---------- outside wf_schema the round trip fails: duplicate item types (Meshcop 128/129) ---------- *)
+Lemma dup_tags_refuted :
+  exists t v e, wf_schema t = false /\ fits_msg t v = true /\
+                tlv8_encode t v = Ok e /\ tlv8_decode t e <> Ok v.
+Proof.
+  exists (TStruct [(128%N, TBytes); (128%N, TBytes)]), (VStruct [Some (VB [1%N]); None]), [128%N; 1%N; 1%N].
+  split; [vm_compute; reflexivity|]. split; [vm_compute; reflexivity|]. split; [vm_compute; reflexivity|].
+  vm_compute. discriminate.
+Qed.
